@@ -104,6 +104,9 @@ def report(ck, name, pair, o, projection, meta=None):
         if o["skipped"].startswith("harness panic"):
             ck.violation("loading the patch or applying it through the library panics or does not return: %s" % o["skipped"][15:260].replace("\n", " "), rep)
             return True
+        if o["skipped"].startswith("patch rejected") and (meta or {}).get("must_parse"):
+            ck.violation("a hand-written, valid patch is rejected: %s" % o["skipped"][16:200], rep)
+            return
         if o["skipped"].startswith("output does not print/parse") and (meta or {}).get("must_parse"):
             ck.violation("the rewritten file does not print or parse (%s) although the instantiated '+' pattern is admissible at "
                          "every site of this input" % o["skipped"][29:150], rep)
